@@ -157,6 +157,8 @@ type Hooks struct {
 	// SameEffect tells whether two states have identical domain payloads
 	// (used to avoid forking on effect-free short-circuit operands).
 	SameEffect func(a, b *State) bool
+	// Decision is told which way an undecided condition went on this path.
+	Decision func(in *Interp, st *State, cond ast.Expr, v Value, branch bool)
 	// LoopNeutral tells whether one loop iteration left the tracked state
 	// unchanged (defaults to SameEffect).
 	LoopNeutral func(a, b *State) bool
@@ -529,9 +531,15 @@ func (in *Interp) branch(st *State, cond ast.Expr) []branchState {
 		default:
 			t, f := vs.st, vs.st.clone()
 			if in.h.Assume == nil || in.h.Assume(in, t, cond, true) {
+				if in.h.Decision != nil {
+					in.h.Decision(in, t, cond, vs.v, true)
+				}
 				out = append(out, branchState{t, true})
 			}
 			if in.h.Assume == nil || in.h.Assume(in, f, cond, false) {
+				if in.h.Decision != nil {
+					in.h.Decision(in, f, cond, vs.v, false)
+				}
 				out = append(out, branchState{f, false})
 			}
 		}
